@@ -1,7 +1,8 @@
 """Per-property configuration of the driver: claimed level, generation rule (what makes a case distinct and
 non-trivial), trusted base, build profiles per tier."""
 
-BOTH = {"quick": ["checked"], "thorough": ["checked", "release"]}
+# both build profiles in both tiers: debug_assert!/overflow-check differences flip verdicts in either direction
+BOTH = {"quick": ["checked", "release"], "thorough": ["checked", "release"]}
 BASE_ASSUME = [
     "executions, not proofs: the claim is 'held on the monitored executions listed under coverage'",
     "harness built from /repo's working tree with --cfg gm_rs_verif; profile 'checked' = opt-level 3 + overflow-checks + debug-assertions, 'release' = plain release",
